@@ -338,6 +338,11 @@ func runCase(c Case, script bool) (fails []fail, obs string, info caseInfo) {
 		}
 		args[i] = a
 	}
+	if c.Cat == "limit" { // replay of a limit-phase case (sequential by construction)
+		f, ob, li := limitCase(s, args)
+		info.calls = li.calls
+		return f, ob, info
+	}
 	o, calls := execDirect(s, args)
 	fails, info = judge(s, args, o, "direct call")
 	info.calls = calls
@@ -779,6 +784,11 @@ func main() {
 			r.Violation(f.sig, f.what, c)
 		}
 	})
+
+	// sequential phase: nothing else runs while the package-level limits are lowered
+	t0 := r.Elapsed()
+	limitPhase(r, plans)
+	r.Set("limit_phase_wall_s", (r.Elapsed() - t0).Seconds())
 
 	// coverage bookkeeping: every documented name is either covered or listed with a reason
 	var covered, uncovered []string
